@@ -113,10 +113,27 @@ func (p *c18cProducer) Produce(context.Context) ([]metricdata.ScopeMetrics, erro
 	return []metricdata.ScopeMetrics{b, a}, nil
 }
 
+// c18cLateProducer: the family "dup" (two scopes, two descriptions, fixed order) does not exist yet
+// when the first collection takes its snapshot; every later collection sees it. A scrape that
+// started before the instruments were created must not disturb what a later scrape decided.
+type c18cLateProducer struct{ calls vatomic.Int32 }
+
+func (p *c18cLateProducer) Produce(context.Context) ([]metricdata.ScopeMetrics, error) {
+	if p.calls.Add(1) == 1 {
+		return nil, nil
+	}
+	mk := func(scope, desc string, v int64) metricdata.ScopeMetrics {
+		return metricdata.ScopeMetrics{Scope: instrumentation.Scope{Name: scope}, Metrics: []metricdata.Metrics{{Name: "dup", Description: desc,
+			Data: metricdata.Sum[int64]{Temporality: metricdata.CumulativeTemporality, IsMonotonic: true, DataPoints: []metricdata.DataPoint[int64]{{Value: v}}}}}}
+	}
+	return []metricdata.ScopeMetrics{mk("pa", "from A", 10), mk("pb", "from B", 20)}, nil
+}
+
 type c18cScn struct {
 	name    string
 	opts    func() []Option
 	threads [][]string // ops: Scrape, Add
+	varying bool       // the set of series legitimately differs between scrapes (instruments appear meanwhile)
 }
 
 func c18cBody(sc c18cScn, res *string) func(x *sched.Exec) {
@@ -207,7 +224,7 @@ func c18cBody(sc c18cScn, res *string) func(x *sched.Exec) {
 				x.Fail("C18|help-conflict-within-one-scrape|concurrent first scrapes", "two scopes define the family with different descriptions and two first scrapes meet them in opposite orders: %s (a registry refuses such a scrape)", o.twoHelps)
 			}
 			for _, s := range o.scrapes {
-				if withShutdown {
+				if withShutdown || sc.varying {
 					continue // a scrape that overlaps the shutdown may be complete or cut short; it must not panic (judged by the engine)
 				}
 				if strip(s) != strip(final) {
@@ -244,13 +261,14 @@ func hasAdd(sc c18cScn) bool {
 func c18cScenarios() []c18cScn {
 	constLabels := func() []Option { return []Option{WithResourceAsConstantLabels(attribute.NewAllowKeysFilter("env"))} }
 	return []c18cScn{
-		{"K1-default-scrape-scrape-add", func() []Option { return nil }, [][]string{{"Scrape"}, {"Scrape"}, {"Add"}}},
-		{"K2-constlabels-scrape-scrape-add", constLabels, [][]string{{"Scrape"}, {"Scrape"}, {"Add"}}},
-		{"K3-constlabels-2scrapes-each", constLabels, [][]string{{"Scrape", "Scrape"}, {"Scrape"}}},
-		{"K5-scrape-vs-provider-shutdown", func() []Option { return nil }, [][]string{{"Scrape"}, {"Shutdown"}}},
-		{"K6-constlabels-scrape-scrape-shutdown", constLabels, [][]string{{"Scrape"}, {"Scrape"}, {"Shutdown"}}},
-		{"K7-first-scrapes-two-descriptions-opposite-scope-order", func() []Option { return []Option{WithProducer(&c18cProducer{})} }, [][]string{{"ScrapeH"}, {"ScrapeH"}}},
-		{"K4-noscope-notarget", func() []Option { return []Option{WithoutScopeInfo(), WithoutTargetInfo()} }, [][]string{{"Scrape"}, {"Scrape"}, {"Add"}}},
+		{"K1-default-scrape-scrape-add", func() []Option { return nil }, [][]string{{"Scrape"}, {"Scrape"}, {"Add"}}, false},
+		{"K2-constlabels-scrape-scrape-add", constLabels, [][]string{{"Scrape"}, {"Scrape"}, {"Add"}}, false},
+		{"K3-constlabels-2scrapes-each", constLabels, [][]string{{"Scrape", "Scrape"}, {"Scrape"}}, false},
+		{"K5-scrape-vs-provider-shutdown", func() []Option { return nil }, [][]string{{"Scrape"}, {"Shutdown"}}, false},
+		{"K6-constlabels-scrape-scrape-shutdown", constLabels, [][]string{{"Scrape"}, {"Scrape"}, {"Shutdown"}}, false},
+		{"K7-first-scrapes-two-descriptions-opposite-scope-order", func() []Option { return []Option{WithProducer(&c18cProducer{})} }, [][]string{{"ScrapeH"}, {"ScrapeH"}}, false},
+		{"K4-noscope-notarget", func() []Option { return []Option{WithoutScopeInfo(), WithoutTargetInfo()} }, [][]string{{"Scrape"}, {"Scrape"}, {"Add"}}, false},
+		{"K8-scrape-from-before-the-family-existed-vs-first-scrape-that-sees-it", func() []Option { return []Option{WithProducer(&c18cLateProducer{})} }, [][]string{{"ScrapeH"}, {"ScrapeH"}}, true},
 	}
 }
 
